@@ -20,6 +20,7 @@ import (
 	"fmt"
 	"os"
 	"runtime"
+	"sync/atomic"
 	"runtime/debug"
 	"runtime/pprof"
 	"sort"
@@ -40,6 +41,9 @@ type replayObj struct {
 	Heavy   []bool   `json:"heavy,omitempty"` // mixed-difficulty world (part b)
 	Hist    []string `json:"hist,omitempty"`
 	Fn      string   `json:"fn,omitempty"`
+	Know    string   `json:"knowledge,omitempty"` // part "binv": per node n/h/b
+	HdrFst  bool     `json:"headers_first,omitempty"`
+	X       int      `json:"invalidated_node,omitempty"`
 }
 
 type finding struct {
@@ -88,6 +92,10 @@ func failing(rp replayObj) map[string]string {
 		runShape(rp.Parents, rep("a/"))
 	case "deep":
 		runDepth(rp.F, rp.L, rep("a-deep/"))
+	case "binv":
+		for k, v := range runInv(rp.Parents, rp.Know, rp.HdrFst, rp.X) {
+			out[k] = v
+		}
 	case "b":
 		w := newBWorld(rp.Parents, rp.Invalid)
 		if rp.Heavy != nil {
@@ -430,6 +438,50 @@ func main() {
 		}
 	})
 	phase["b"] = time.Since(t0).Seconds()
+	t0 = time.Now()
+	// ------------------------------------------------------------- part (b'): manual invalidation
+	type invJob struct {
+		parents []int
+		know    string
+		hf      bool
+		x       int
+	}
+	var invJobs []invJob
+	for n := 2; n <= K+1; n++ {
+		for _, p := range allShapes(n) {
+			for _, kn := range invKnowledge(p) {
+				for x := 1; x < n; x++ {
+					if kn[x] == 'n' {
+						continue
+					}
+					for _, hf := range []bool{false, true} {
+						invJobs = append(invJobs, invJob{p, kn, hf, x})
+					}
+				}
+			}
+		}
+	}
+	var invDone int64
+	ev.Par(len(invJobs), runtime.NumCPU(), func(i int) {
+		if r.Expired() {
+			return
+		}
+		j := invJobs[i]
+		for k, what := range runInv(j.parents, j.know, j.hf, j.x) {
+			col.add(k, fmt.Sprintf("%02d/%s/%d/%v", len(j.parents), j.know, j.x, j.hf), fmt.Sprintf("tree parents=%v: %s", j.parents, what),
+				replayObj{Part: "binv", Parents: j.parents, Know: j.know, HdrFst: j.hf, X: j.x, Fn: k})
+		}
+		r.Nontrivial(fmt.Sprintf("binv|%v|%s|%d|%v", j.parents, j.know, j.x, j.hf))
+		atomic.AddInt64(&invDone, 1)
+	})
+	r.Eval(int(invDone))
+	r.Trans(int(invDone))
+	r.Add("b_inv_probes", invDone)
+	if int(invDone) != len(invJobs) {
+		complete = false
+		r.Cap(fmt.Sprintf("part (b'): time box hit after %d of %d probes", invDone, len(invJobs)))
+	}
+	phase["b_inv"] = time.Since(t0).Seconds()
 	r.Set("phase_wall_seconds", phase)
 	r.State(bStates)
 	r.Trans(bTrans)
@@ -453,6 +505,7 @@ func main() {
 		"b_max_blocks": K, "b_extra_family": "quick tier: plus the K+1-block configurations in which the invalid block has a descendant two levels below it and a competing branch exists", "b_configurations": len(cfgs),
 		"b_events":           "H_i = ProcessBlockHeader(header_i, BFNone, false), B_i = ProcessBlock(block_i, BFNone); H_i enabled once parent's header or block was delivered and H_i was not (also after the node's own block); B_i enabled once parent's block was delivered",
 		"b_mixed_difficulty": "3 worlds on a minimum-difficulty network: light branch of 2/3/3 blocks (1 unit of work each) and heavy branch of 1/1/2 blocks (256 units each) from a genesis block at the heavy difficulty",
+		"b_inv":              "part (b'): every tree shape with <= K blocks x every knowledge vector (none / header / block per node, parents first) x {headers after the blocks, before the blocks} x every known node x: InvalidateBlock(x), then the header of every unknown node with a known parent (refused iff it descends from x), ReconsiderBlock(x), the refused headers again (accepted)",
 		"b_invalid":          "one node whose coinbase overpays by 1 satoshi (found at connect time only), every node up to tree symmetry, or none",
 	})
 
